@@ -46,6 +46,12 @@ type sent struct {
 // Run is the C18 driver.
 func Run(o *drv.Out) {
 	base := o.Dir + "/nodes"
+	if o.Tier == "race" {
+		// reduced scenario for the binary built with -race (started by the thorough run, see race.go)
+		tappedCases(o, base)
+		rawCases(o, base)
+		return
+	}
 	consts(o)
 	t0 := time.Now()
 	tappedCases(o, base)
@@ -58,6 +64,7 @@ func Run(o *drv.Out) {
 	o.Extra["c18_overlimit_s"] = time.Since(t0).Seconds()
 	if o.Tier == "thorough" {
 		partialEnqueue(o, base)
+		raceRun(o)
 	}
 }
 
@@ -468,7 +475,11 @@ func overLimitCases(o *drv.Out, base string) {
 	// assembler and drops the peer for a reason unrelated to the limit. Touch the memory beforehand.
 	{
 		var warm [][]byte
-		for i := 0; i < 14; i++ {
+		nwarm := 10
+		if o.Tier == "thorough" {
+			nwarm = 14
+		}
+		for i := 0; i < nwarm; i++ {
 			b := make([]byte, 64<<20)
 			for j := 0; j < len(b); j += 4096 {
 				b[j] = 1
